@@ -21,7 +21,12 @@ void harness(void){
     bstr *in=bstr_alloc(N); __CPROVER_assume(in!=NULL);
     size_t len=in_size_le(N);
     unsigned char raw[N];
-    for(size_t i=0;i<N;i++){ unsigned char c=in_u8(); raw[i]=c; bstr_ptr(in)[i]=c; }
+    for(size_t i=0;i<N;i++){ unsigned char c=in_u8();
+#ifdef PORTDIGITS
+        /* "a:" followed by digits only: ports around 2^16, 2^31, 2^32, 2^63 */
+        if(i==0) __CPROVER_assume(c=='a'); else if(i==1) __CPROVER_assume(c==':'); else __CPROVER_assume(c>='0'&&c<='9');
+#endif
+        raw[i]=c; bstr_ptr(in)[i]=c; }
     bstr_adjust_len(in,len);
     bstr *host=NULL,*port=NULL; int pn=0, inv=-1;
     htp_status_t rc=htp_parse_hostport(in,&host,&port,&pn,&inv);
